@@ -214,23 +214,21 @@ macro_rules! tri {
 
 pub(crate) use tri;
 
-struct DepthGuard<'a, R> {
-    de: &'a mut Deserializer<R>,
-}
-
-impl<'a, 'de, R: Reader<'de>> DepthGuard<'a, R> {
-    fn guard(de: &'a mut Deserializer<R>) -> Result<Self> {
-        de.remaining_depth -= 1;
-        if de.remaining_depth == 0 {
-            return Err(de.parser.error(RecursionLimitExceeded));
+// Nested containers are deserialized recursively: bound the depth instead of the stack.
+impl<'de, R: Reader<'de>> Deserializer<R> {
+    #[inline(always)]
+    fn enter_nested(&mut self) -> Result<()> {
+        self.remaining_depth -= 1;
+        if self.remaining_depth == 0 {
+            self.remaining_depth += 1;
+            return Err(self.parser.error(RecursionLimitExceeded));
         }
-        Ok(Self { de })
+        Ok(())
     }
-}
 
-impl<'a, R> Drop for DepthGuard<'a, R> {
-    fn drop(&mut self) {
-        self.de.remaining_depth += 1;
+    #[inline(always)]
+    fn leave_nested(&mut self) {
+        self.remaining_depth += 1;
     }
 }
 
@@ -483,8 +481,10 @@ impl<'de, 'a, R: Reader<'de>> de::Deserializer<'de> for &'a mut Deserializer<R> 
             },
             b'[' => {
                 let ret = {
-                    let _ = DepthGuard::guard(self);
-                    visitor.visit_seq(SeqAccess::new(self))
+                    tri!(self.enter_nested());
+                    let ret = visitor.visit_seq(SeqAccess::new(self));
+                    self.leave_nested();
+                    ret
                 };
                 match (ret, self.end_seq()) {
                     (Ok(ret), Ok(())) => Ok(ret),
@@ -493,8 +493,10 @@ impl<'de, 'a, R: Reader<'de>> de::Deserializer<'de> for &'a mut Deserializer<R> 
             }
             b'{' => {
                 let ret = {
-                    let _ = DepthGuard::guard(self);
-                    visitor.visit_map(MapAccess::new(self))
+                    tri!(self.enter_nested());
+                    let ret = visitor.visit_map(MapAccess::new(self));
+                    self.leave_nested();
+                    ret
                 };
                 match (ret, self.end_map()) {
                     (Ok(ret), Ok(())) => Ok(ret),
@@ -767,8 +769,10 @@ impl<'de, 'a, R: Reader<'de>> de::Deserializer<'de> for &'a mut Deserializer<R> 
         let value = match peek {
             b'[' => {
                 let ret = {
-                    let _ = DepthGuard::guard(self);
-                    visitor.visit_seq(SeqAccess::new(self))
+                    tri!(self.enter_nested());
+                    let ret = visitor.visit_seq(SeqAccess::new(self));
+                    self.leave_nested();
+                    ret
                 };
                 match (ret, self.end_seq()) {
                     (Ok(ret), Ok(())) => Ok(ret),
@@ -813,8 +817,10 @@ impl<'de, 'a, R: Reader<'de>> de::Deserializer<'de> for &'a mut Deserializer<R> 
         let value = match peek {
             b'{' => {
                 let ret = {
-                    let _ = DepthGuard::guard(self);
-                    visitor.visit_map(MapAccess::new(self))
+                    tri!(self.enter_nested());
+                    let ret = visitor.visit_map(MapAccess::new(self));
+                    self.leave_nested();
+                    ret
                 };
                 match (ret, self.end_map()) {
                     (Ok(ret), Ok(())) => Ok(ret),
@@ -845,8 +851,10 @@ impl<'de, 'a, R: Reader<'de>> de::Deserializer<'de> for &'a mut Deserializer<R> 
         let value = match peek {
             b'[' => {
                 let ret = {
-                    let _ = DepthGuard::guard(self);
-                    visitor.visit_seq(SeqAccess::new(self))
+                    tri!(self.enter_nested());
+                    let ret = visitor.visit_seq(SeqAccess::new(self));
+                    self.leave_nested();
+                    ret
                 };
                 match (ret, self.end_seq()) {
                     (Ok(ret), Ok(())) => Ok(ret),
@@ -855,8 +863,10 @@ impl<'de, 'a, R: Reader<'de>> de::Deserializer<'de> for &'a mut Deserializer<R> 
             }
             b'{' => {
                 let ret = {
-                    let _ = DepthGuard::guard(self);
-                    visitor.visit_map(MapAccess::new(self))
+                    tri!(self.enter_nested());
+                    let ret = visitor.visit_map(MapAccess::new(self));
+                    self.leave_nested();
+                    ret
                 };
                 match (ret, self.end_map()) {
                     (Ok(ret), Ok(())) => Ok(ret),
@@ -888,8 +898,10 @@ impl<'de, 'a, R: Reader<'de>> de::Deserializer<'de> for &'a mut Deserializer<R> 
             Some(b'{') => {
                 self.parser.read.eat(1);
                 let value = {
-                    let _ = DepthGuard::guard(self);
-                    match visitor.visit_enum(VariantAccess::new(self)) {
+                    tri!(self.enter_nested());
+                    let ret = visitor.visit_enum(VariantAccess::new(self));
+                    self.leave_nested();
+                    match ret {
                         Ok(value) => value,
                         Err(err) => return Err(self.parser.fix_position(err)),
                     }
